@@ -36,7 +36,7 @@ from pybrops.breed.prot.sel.GenomicEstimatedBreedingValueSelection import Genomi
 from pybrops.opt.algo.SortingSubsetOptimizationAlgorithm import SortingSubsetOptimizationAlgorithm
 
 PROP = "C10"
-RUNS = {"quick": 30000, "thorough": 800000}
+RUNS = {"quick": 40000, "thorough": 800000}
 WALL = {"quick": 200, "thorough": 2400}
 RUN_TIMEOUT = 120
 RULE = ("scenario = founders (size biased to 1,2,3,7,48,49,50,98,103,107), 1-24 markers on 1-3 chromosomes, xoprob with exact 0 and 0.5, additive "
